@@ -66,9 +66,9 @@ func c04Scripts(tier string) []uciParams {
 		{"go depth 1", "await", "go depth 1", "await"},
 		{"go depth 1", "await", "go infinite", "!stop", "await"},
 		{"go depth 1 movetime 5", "await", "go infinite", "!stop", "await"}, // the movetime timer of an answered go outlives it
-		{"go wtime 1000 winc 10 btime 1000 binc 10 movestogo 10", "await"}, // parameters the driver does not handle sit between those it does (@kvk)
-		{"go nodes 50 mate 2", "!stop", "await"},                           // only unhandled limits: runs until stopped (@kvk)
-		{"go depth 2", "!stop", "await", "@other", "go depth 1", "await"},    // a stop racing with the natural end of the search, then another position: whatever is left of the first search must not answer the second
+		{"go wtime 1000 winc 10 btime 1000 binc 10 movestogo 10", "await"},  // parameters the driver does not handle sit between those it does (@kvk)
+		{"go nodes 50 mate 2", "!stop", "await"},                            // only unhandled limits: runs until stopped (@kvk)
+		{"go depth 2", "!stop", "await", "@other", "go depth 1", "await"},   // a stop racing with the natural end of the search, then another position: whatever is left of the first search must not answer the second
 		{"go depth 1", "!stop", "await", "@other", "go infinite", "stop", "await"},
 	}
 	var out []uciParams
@@ -115,6 +115,20 @@ func c04Scripts(tier string) []uciParams {
 	}
 	out = append(out, uciParams{Engine: "sargon", Flags: map[string]string{"noise": "0"}, Script: []string{"setoption name OwnBook value false", "position fen " + kP1, "go", "await", "go", "await"}, Final: "quit", Oracle: "c04", Horizon: 900})
 	out = append(out, uciParams{Engine: "turochamp", Script: []string{"position fen " + kP1, "go", "await"}, Final: "quit", Oracle: "c04", Horizon: 1500})
+	// a generic opening book with en passant lines: inside the line, after a transposition that
+	// reaches the same placement WITHOUT the e.p. target (two single steps), and past the line
+	for seed := int64(0); seed < 2; seed++ {
+		for _, line := range []string{
+			"position startpos moves e2e4 a7a6 e4e5 d7d5",
+			"position startpos moves e2e3 a7a6 e3e4 d7d6 e4e5 d6d5",
+			"position startpos moves d2d4 h7h6 d4d5 c7c5",
+			"position startpos moves d2d3 h7h6 d3d4 c7c6 d4d5 c6c5",
+			"position startpos moves e2e4 a7a6 e4e5 d7d5 e5d6",
+			"position startpos",
+		} {
+			out = append(out, uciParams{Engine: "plainbook", Script: []string{"setoption name OwnBook value true", line, "go depth 1", "await"}, Final: "quit", Oracle: "c04", Horizon: 900, Seed: seed})
+		}
+	}
 	// the engine's own depth option bounds a bare go
 	out = append(out, uciParams{Engine: "plain", Script: []string{"setoption name Depth value 2", "position fen " + kP1, "go", "await", "setoption name Depth value 1", "go", "await"}, Final: "quit", Oracle: "c04", Horizon: 900})
 	out = append(out, uciParams{Engine: "morlock", Script: []string{"setoption name Depth value 1", "setoption name Hash value 1", "position fen " + kP2, "go", "await"}, Final: "quit", Oracle: "c04", Horizon: 900})
@@ -125,7 +139,7 @@ func c04Scripts(tier string) []uciParams {
 func init() {
 	Defs["C04"] = &Def{
 		ID:   "C04",
-		Rule: "engine (plain alpha-beta + the four bundled engines, constructed by code LIFTED from cmd/*/main.go at check time) x options (Hash 0/1, Noise, OwnBook on/off, flags) x set-up (K v K both colours, checkmated, stalemated, claimable three-fold via moves, five-fold via moves, bare kings after a capture played in the moves list, half-move clock 100, fortress with and without moves, start position with book) x go variant (depth 1/2, bare, movetime, wtime/btime(+movestogo), infinite->stop, depth->stop, go;await;go, go;await;go infinite;stop, go;stop;await;other position;go;await). The GUI awaits each bestmove; `stop` is released (a) as a lazy thread at ANY scheduling point for one deviation, timers likewise, and (b) at scheduler step k for a grid of k over the whole unstopped run, timers likewise, each engine goroutine in turn held back for 80 steps after the stop (slow-thread dimension); all schedules within the deviation bound. Oracle per execution: every go answered by exactly one bestmove (a GUI parked forever on await = missing answer), the move is reference-legal in the position last set up, 0000 iff that position has no legal move. distinct_nontrivial = distinct event-log classes",
+		Rule: "engine (plain alpha-beta + the four bundled engines, constructed by code LIFTED from cmd/*/main.go at check time) x options (Hash 0/1, Noise, OwnBook on/off, flags) x set-up (K v K both colours, checkmated, stalemated, claimable three-fold via moves, five-fold via moves, bare kings after a capture played in the moves list, half-move clock 100, fortress with and without moves, start position with book; a generic book with en passant lines on positions inside, transposed into and past its lines) x go variant (depth 1/2, bare, movetime, wtime/btime(+movestogo), infinite->stop, depth->stop, go;await;go, go;await;go infinite;stop, go;stop;await;other position;go;await). The GUI awaits each bestmove; `stop` is released (a) as a lazy thread at ANY scheduling point for one deviation, timers likewise, and (b) at scheduler step k for a grid of k over the whole unstopped run, timers likewise, each engine goroutine in turn held back for 80 steps after the stop (slow-thread dimension); all schedules within the deviation bound. Oracle per execution: every go answered by exactly one bestmove (a GUI parked forever on await = missing answer), the move is reference-legal in the position last set up, 0000 iff that position has no legal move. distinct_nontrivial = distinct event-log classes",
 		Gen: func(tier string) []explore.Scenario {
 			var out []explore.Scenario
 			for _, p := range c04Scripts(tier) {
